@@ -376,3 +376,39 @@ def _result_type(tname: str, **kw):
 RV = _result_type('RV')
 RJ = _result_type('RJ', cache=JCache())
 RESULT_TYPES = {'RV': RV, 'RJ': RJ}
+
+
+# ---------------------------------------------------------------------------------------------------
+# chatty tasks (C19): emit uniquely-tokenised messages through the labtech logger, stdout and stderr
+# ---------------------------------------------------------------------------------------------------
+
+def _chat_run(self):
+    trace(f'S {self.name} {os.getpid()} {os.getppid()} {threading.get_native_id()} Chat')
+    gate_wait(self.name)
+    for d in walk_tasks(self.deps):
+        d.result
+    import logging as _logging
+    for act in self.script:
+        kind = act[0]
+        if kind == 'log':
+            getattr(labtech.logger, act[1])(act[2])
+        elif kind == 'print':
+            print(act[1], flush=bool(act[2]))
+        elif kind == 'err':
+            sys.stderr.write(act[1])
+        elif kind == 'errln':
+            print(act[1], file=sys.stderr)
+        elif kind == 'flush':
+            sys.stdout.flush()
+            sys.stderr.flush()
+        elif kind == 'ws':
+            print('   ')
+        else:
+            raise RuntimeError(f'harness: unknown chat action {act!r}')
+    trace(f'E {self.name} Chat')
+    return self.name
+
+
+Chat = labtech.task(cache=None)(type('Chat', (), {
+    '__annotations__': {'name': str, 'script': Any, 'deps': Any}, 'run': _chat_run, '__module__': MODULE, '__qualname__': 'Chat',
+    'deps': None}))
